@@ -18,6 +18,18 @@ CLAIMED = {
               "comparison (covered by T2 only); std's [u8] Hash as hashing reference."),
         technique='Lean 4 proof of a verified decision procedure + per-run decide certificate over a table translated from the source; differential correspondence run',
     ),
+    'C15': dict(
+        category='proof',
+        text=("Lean theorems debug_roundtrip / hex_roundtrip: for every chain accepted by the 256-case decision procedure and every byte "
+              "string, the output parses back (independent strict byte-string-literal parser, prefix-stable parse1) to exactly the contents; "
+              "the chain, format strings, fmt_impl!/serde_impl! tables are regenerated from src/fmt/*.rs and src/serde.rs on every run and a "
+              "`decide +kernel` certificate instantiates the theorems for the source; T2 formats all single bytes, all 65536 pairs and random "
+              "strings in every representation and the judge parses them back and compares with the model; serde via serde_test."),
+        design='§7 C15, §4.1',
+        note=("Trusted: Lean kernel; T1 extractor; core::fmt rendering of {:02x}/{} (modelled, tied by T2); serde dispatch and serde_test; "
+              "the serde rows are a syntactic fingerprint of the macro body (theorem is about contents = input only)."),
+        technique='Lean 4 proof (induction over the byte list on top of a 256-case kernel-evaluated decision procedure) over a chain translated from the source; differential correspondence run',
+    ),
 }
 
 NOT_YET = "not claimed yet: machinery for this property is still under construction (build order in DESIGN.md §10)"
